@@ -41,6 +41,34 @@ fn stall_bg(what: &str) {
     }
 }
 
+// `stall ev`: the EVENTS endpoint hangs: every event report, on whatever thread the library makes it, does not return
+// until every scheduled thread has finished all its calls (or 5 s pass, which is reported)
+pub static STALL_EV: std::sync::atomic::AtomicBool = std::sync::atomic::AtomicBool::new(false);
+pub fn stall_ev() {
+    use std::sync::atomic::Ordering::SeqCst;
+    if !STALL_EV.load(SeqCst) {
+        return;
+    }
+    let start = std::time::Instant::now();
+    let mut st = STATE.lock().unwrap();
+    loop {
+        let done = (0..MAXT).all(|i| st.finished[i] || !st.present[i]);
+        if done || !st.active || !STALL_EV.load(SeqCst) {
+            return;
+        }
+        if start.elapsed().as_secs() >= 5 {
+            let mut dv = crate::replay::DEPTH_VIOLATIONS.lock().unwrap();
+            let msg = "calls did not complete while the events endpoint hung".to_string();
+            if !dv.contains(&msg) {
+                dv.push(msg);
+            }
+            return;
+        }
+        let (g, _) = CV.wait_timeout(st, std::time::Duration::from_millis(100)).unwrap();
+        st = g;
+    }
+}
+
 fn stall_hook(what: &str) {
     let Some(me) = IDX.with(|c| c.get()) else {
         stall_bg(what);
